@@ -27,6 +27,27 @@ def val(d):
 
 def build(cls, fields):
     f = {k: v for k, v in (fields or {}).items()}
+    if cls == "io.File":
+        import io
+        fobj = io.BytesIO(val(f.get("content")) or b"")
+        fobj.seek(val(f.get("pos")) or 0)
+        return fobj
+    if cls in ("buffers.FileBasedBuffer", "buffers.BytesIOBasedBuffer", "buffers.TempfileBasedBuffer", "buffers.ReadOnlyFileBasedBuffer"):
+        fobj = build("io.File", (f.get("file") or {}).get("fields"))
+        if cls == "buffers.ReadOnlyFileBasedBuffer":
+            b = buffers.ReadOnlyFileBasedBuffer(fobj, val(f.get("block_size")) or 32768)
+        else:
+            b = getattr(buffers, cls.split(".")[1]).__new__(getattr(buffers, cls.split(".")[1]))
+            b.file = fobj
+        b.remain = val(f.get("remain")) or 0
+        return b
+    if cls == "buffers.OverflowableBuffer" and "strbuf" in f:
+        b = buffers.OverflowableBuffer(val(f.get("overflow")) or 0)
+        b.overflowed = bool(val(f.get("overflowed")))
+        b.strbuf = val(f.get("strbuf")) or b""
+        inner = f.get("buf")
+        b.buf = None if inner is None or inner["t"] != "obj" else build(inner["cls"], inner["fields"])
+        return b
     if cls == "buffers.OverflowableBuffer":
         b = buffers.OverflowableBuffer(1 << 30)
         data = val(f.get("view")) or b""
@@ -70,9 +91,23 @@ def build(cls, fields):
 
 def snap(o, depth=0):
     """plain snapshot of an object state with the abstract `view` of buffers"""
+    if hasattr(o, "getvalue") and hasattr(o, "tell"):          # BytesIO standing for the model's io.File
+        try:
+            return types.SimpleNamespace(content=o.getvalue(), pos=o.tell(), closed=False)
+        except ValueError:
+            return types.SimpleNamespace(content=b"", pos=0, closed=True)
     if isinstance(o, buffers.OverflowableBuffer):
-        n = len(o)
-        return types.SimpleNamespace(view=bytes(o.get(n)) if n else b"", closed=False)
+        inner = snap(o.buf, depth + 1) if o.buf is not None else None
+        view = o.strbuf if o.buf is None else inner.view
+        ns = types.SimpleNamespace(view=bytes(view), closed=False, strbuf=o.strbuf, buf=inner, overflowed=o.overflowed, overflow=o.overflow)
+        ns.__dict__["_cls"] = type(o)
+        return ns
+    if isinstance(o, (buffers.FileBasedBuffer, buffers.ReadOnlyFileBasedBuffer)):
+        fs = snap(o.file, depth + 1)
+        ns = types.SimpleNamespace(file=fs, remain=o.remain, view=fs.content[fs.pos:] if hasattr(fs, "content") else b"",
+                                   block_size=getattr(o, "block_size", None))
+        ns.__dict__["_cls"] = type(o)
+        return ns
     if isinstance(o, (int, bool, bytes, str, type(None), float)):
         return o
     if isinstance(o, (list, tuple)):
@@ -141,8 +176,12 @@ def model_replay(p):
     before = snap(obj)
     shown = {"self": {k: (repr(v)[:120]) for k, v in vars(before).items() if not k.startswith("_") and isinstance(v, (int, bool, bytes, str, type(None)))},
              "args": {k: repr(v)[:200] for k, v in args.items()}}
-    if hasattr(before, "buf"):
+    if getattr(before, "buf", None) is not None and hasattr(before.buf, "view"):
         shown["self"]["buf.view"] = repr(before.buf.view)[:120]
+    if hasattr(before, "view"):
+        shown["self"]["view"] = repr(before.view)[:120]
+    if getattr(before, "file", None) is not None and hasattr(before.file, "content"):
+        shown["self"]["file"] = "content=%r pos=%d" % (before.file.content[:80], before.file.pos)
     try:
         result = getattr(obj, p["method"])(**args)
         raised = None
